@@ -146,8 +146,21 @@ def _py_default(fs):
     return attr.Factory(F[d[1]], takes_self=(d[0] == "fs"))
 
 
-def make_transformer(spec, future):
+def make_transformer(spec, future, scratch=None):
     k = spec[0]
+    if k in ("meta", "metarev"):
+        # stamps every field through ONE reused work dict (mutated again after the class exists):
+        # Attribute.evolve must copy it.  Metadata is not part of the Gallina model: the model sees
+        # identity / reverse, the harness checks the metadata content itself (runtime-only).
+        def stamp(cls, fs):
+            out = []
+            for pos, a in enumerate(reversed(fs) if k == "metarev" else fs):
+                scratch.clear()
+                scratch["n"] = a.name
+                scratch["i"] = pos
+                out.append(a.evolve(metadata=scratch))
+            return out
+        return stamp
     if k == "id":
         return lambda cls, fs: fs
     if k == "rev":
@@ -211,6 +224,8 @@ class Env:
                         "V": V, "F": F})
         sys.modules[self.name] = self.mod
         self.classes = {}      # id -> class object (bound names only)
+        self.meta_seen = {}    # id -> [(field name, metadata)] at the first observation
+        self.scratch = {}      # id -> the work dict of that class statement's transformer
 
     def close(self):
         sys.modules.pop(self.name, None)
@@ -310,13 +325,22 @@ def render_class(spec, future):
                 kws.append("auto_attribs=%s" % (spec["auto"] == "true"))
             if not spec["slots"]:
                 kws.append("slots=False")
-            lines.append("@attrs.define(%s)" % ", ".join(kws))
+            expr = "attrs.define(%s)" % ", ".join(kws)
         else:
             if spec["auto"] == "true":
                 kws.append("auto_attribs=True")
             if spec["slots"]:
                 kws.append("slots=True")
-            lines.append("@attr.s(%s)" % ", ".join(kws) if kws or spec.get("parens", True) else "@attr.s")
+            expr = "attr.s(%s)" % ", ".join(kws)
+        if spec.get("deco_ref") is not None:
+            # ONE decorator object applied to several classes: every class is decided on its own
+            lines = [ln for ln in lines if not ln.startswith("_t%d_" % i)]
+            lines.append("@_D%d" % spec["deco_ref"])
+        elif spec.get("deco_name"):
+            lines.append("_D%d = %s" % (i, expr))
+            lines.append("@_D%d" % i)
+        else:
+            lines.append("@" + expr)
     lines.append("class %s(%s):" % (cname, bases) if bases else "class %s:" % cname)
     body = []
     ctor = "attrs.field" if kind == "define" else "attr.ib"
@@ -374,7 +398,7 @@ def enc_ib(fs, future, with_type=True):
 
 def enc_ft(spec, future):
     k = spec[0]
-    simple = {"id": "TId", "rev": "TRev", "rot": "TRot", "dropfirst": "TDropFirst", "droplast": "TDropLast",
+    simple = {"meta": "TId", "metarev": "TRev", "id": "TId", "rev": "TRev", "rot": "TRot", "dropfirst": "TDropFirst", "droplast": "TDropLast",
               "kwonly": "TKwOnly", "dupnoinit": "TDupNoInit", "clearalias": "TClearAlias"}
     if k in simple:
         return "(ft_of %s)" % simple[k]
@@ -443,7 +467,8 @@ def _obs_attr(a):
         dk = "v"
     vt = None if a.validator is None else _V_BY_ID.get(id(a.validator), "?")
     return {"name": a.name, "inh": bool(a.inherited), "kw": bool(a.kw_only), "init": bool(a.init), "d": dk,
-            "al": a.alias, "ty": None if a.type is None else str(a.type), "v": vt}
+            "al": a.alias, "ty": None if a.type is None else str(a.type), "v": vt,
+            "md": {str(k): (v if isinstance(v, (int, str)) else repr(v)) for k, v in dict(a.metadata).items()}}
 
 
 def observe_class(cls, decorated):
@@ -479,6 +504,29 @@ def observe_class(cls, decorated):
                            for a in fl)}
 
 
+def metadata_problem(env, spec, cls, ob):
+    """Runtime-only (metadata is not modelled): content of every field's metadata."""
+    ft = spec.get("ft")
+    fields = ob["fields"]
+    if ft is not None and ft[0] in ("meta", "metarev"):
+        for pos, f in enumerate(fields):
+            if f["md"] != {"n": f["name"], "i": pos}:
+                return "field %d holds %r, the transformer returned n=%s i=%d" % (pos, f["md"], f["name"], pos)
+        return None
+    if ft is not None:
+        return None
+    rev = {id(c): j for j, c in env.classes.items()}
+    for f in fields:
+        if not f["inh"]:
+            if f["md"] != {}:
+                return "own field %s has metadata %r" % (f["name"], f["md"])
+        else:
+            cands = [m for c in cls.__mro__[1:-1] for n, m in env.meta_seen.get(rev.get(id(c)), ()) if n == f["name"]]
+            if f["md"] not in cands:
+                return "inherited field %s has metadata %r, no base class shows that" % (f["name"], f["md"])
+    return None
+
+
 def safe_observe(cls, decorated):
     """An introspection call that raises is itself an observation (no model output matches it)."""
     try:
@@ -491,8 +539,10 @@ def exec_class(env, spec):
     """Runs one class statement.  Returns (mro ids or None, observation)."""
     i = spec["id"]
     mro = env.mro_ids(spec["bases"])
-    if spec.get("ft") is not None:
-        env.ns["FT%d" % i] = make_transformer(spec["ft"], env.future)
+    ref = spec.get("deco_ref")
+    scratch = env.scratch.setdefault(i if ref is None else ref, {})
+    if spec.get("ft") is not None and ref is None:
+        env.ns["FT%d" % i] = make_transformer(spec["ft"], env.future, scratch)
     src = ("from __future__ import annotations\n" if env.future else "") + render_class(spec, env.future)
     env.ns.pop("K%d" % i, None)
     try:
@@ -505,8 +555,18 @@ def exec_class(env, spec):
         name = ("EUnannotated" if t is UnannotatedAttributeError else "EValue" if t is ValueError
                 else "ESyntax" if t is SyntaxError else "EOther")
         return mro, {"err": name, "exc": t.__name__}
+    finally:
+        # the caller keeps using its work dict after the class statement
+        scratch["n"] = "?written after the class was created"
+        scratch["late"] = 1
     env.classes[i] = cls
     ob = safe_observe(cls, spec["kind"] != "plain")
+    if "fields" in ob:
+        bad = metadata_problem(env, spec, cls, ob)
+        env.meta_seen[i] = [(f["name"], f["md"]) for f in ob["fields"]]
+        if bad:
+            ob["metadata_problem"] = bad
+            ob["match_args"] = ["?metadata: " + bad] + ob["match_args"]
     rev = {id(c): j for j, c in env.classes.items()}
     if mro is not None and [rev.get(id(c)) for c in cls.__mro__[1:-1]] != mro:
         raise vlib.Infra("C07 harness: probe MRO differs from the MRO of the created class K%d" % i)
@@ -556,6 +616,8 @@ def run_specs(specs, pairs, future):
             if cls is None or "err" in seen[k]:
                 continue
             again = safe_observe(cls, spec["kind"] != "plain")
+            if "metadata_problem" in seen[k]:
+                continue
             if again != seen[k]:
                 again["changed_later"] = True
                 if "err" in again:
@@ -711,7 +773,7 @@ def gen_ft(rng, policy, vtags):
     if r < 0.62:
         return None
     k = rng.choice(["id", "rev", "rot", "dropfirst", "droplast", "add", "kwonly", "rename", "dupnoinit",
-                    "clearalias", "rev", "add"])
+                    "clearalias", "rev", "add", "meta", "metarev"])
     if k == "add":
         fs = gen_field(rng, policy, vtags)
         fs["fsugar"] = False
@@ -771,6 +833,7 @@ def gen_class(rng, i, env, policy, vtags, force=None):
         spec["these"] = [[n, fs] for n, fs in zip(names, fields)]
         spec["these_perm"] = _perm(rng, len(names))
         return spec
+    spec["deco_name"] = rng.random() < 0.3
     style = rng.choices(["these", "counter", "auto"], [2, 5, 5] if kind == "attrs" else [1, 0, 6])[0]
     if style == "these":
         spec["these"] = [[n, fs] for n, fs in zip(names, fields)]
@@ -820,12 +883,24 @@ def gen_random_case(rng):
         n = rng.choices([1, 2, 3, 4], [1, 3, 6, 8])[0]
         specs = []
         for i in range(n):
-            spec = gen_class(rng, i, env, policy, vtags)
+            named = [s for s in specs if s.get("deco_name")]
+            if named and rng.random() < 0.5:
+                # re-use an earlier decorator object (same arguments, same these=/transformer objects)
+                src = rng.choice(named)
+                spec = gen_class(rng, i, env, policy, vtags, force=src["kind"])
+                for key in ("by_mro", "kw_only", "slots", "ft", "these", "these_perm", "mc_list", "auto"):
+                    spec[key] = src.get(key)
+                spec["deco_name"] = False
+                spec["deco_ref"] = src["id"]
+            else:
+                spec = gen_class(rng, i, env, policy, vtags)
             exec_class(env, spec)
             specs.append(spec)
         bound = [s["id"] for s in specs if s["kind"] != "plain" and s["id"] in env.classes]
         pairs = []
-        if len(bound) >= 2 and rng.random() < 0.5:
+        stamped = any(s.get("ft") and s["ft"][0] in ("meta", "metarev") for s in specs)
+        if len(bound) >= 2 and rng.random() < 0.5 and not stamped:
+            # (Attribute.__eq__ also compares metadata, which the model does not carry)
             pairs.append(sorted(rng.sample(bound, 2)))
     finally:
         env.close()
@@ -1041,6 +1116,9 @@ def distribution(cases):
             "outcomes": dict(outcomes), "transformers": dict(fts), "shapes": dict(shapes),
             "equivalence_pairs": sum(len(c.inp["pairs"]) for c in cases),
             "equivalence_pairs_equal": sum(1 for c in cases for e in c.seen["eq"] if e),
+            "reused_decorator_objects": sum(1 for c in cases for s in c.inp["classes"] if s.get("deco_ref") is not None),
+            "metadata_stamping_transformers": sum(1 for c in cases for s in c.inp["classes"]
+                                                  if s.get("ft") and s["ft"][0] in ("meta", "metarev")),
             "future_annotations_modules": sum(1 for c in cases if c.inp["future"]),
             "inherited_fields_seen": sum(1 for c in cases for ob in c.seen["classes"]
                                          for f in ob.get("fields", ()) if f["inh"])}
@@ -1134,6 +1212,52 @@ def rt_these_and_validators_isolated():
             return "%s: fields_dict() hands out shared state" % label
 
 
+def rt_evolve_metadata_isolated():
+    """Attribute.evolve(metadata=d) - what a field_transformer typically does - must copy d."""
+    scratch = {}
+
+    def number_fields(cls, fields):
+        out = []
+        for pos, f in enumerate(reversed(fields)):
+            scratch.clear()
+            scratch.update(f.metadata)
+            scratch["pos"] = pos
+            out.append(f.evolve(metadata=scratch))
+        return out
+
+    for slots in (False, True):
+        for by_mro in (False, True):
+            A = attrs.define(field_transformer=number_fields, slots=slots)(
+                type("A", (), {"x": attrs.field(default=0, metadata={"unit": "m"}), "y": attrs.field(default=0)}))
+            B = attr.s(field_transformer=number_fields, collect_by_mro=by_mro, slots=slots)(
+                type("B", (A,), {"z": attr.ib(default=0, metadata={"unit": "s"})}))
+            scratch["pos"] = "late"
+            scratch["leak"] = 1
+            exp_a = [("y", {"pos": 0}), ("x", {"unit": "m", "pos": 1})]
+            exp_b = [("z", {"unit": "s", "pos": 0}), ("x", {"unit": "m", "pos": 1}), ("y", {"pos": 2})]
+            for K, exp in ((A, exp_a), (B, exp_b)):
+                got = [(a.name, dict(a.metadata)) for a in attr.fields(K)]
+                if got != exp:
+                    return "slots=%s by_mro=%s: fields(%s) metadata %r, the transformer returned %r" % (
+                        slots, by_mro, K.__name__, got, exp)
+                gotd = [(n, dict(a.metadata)) for n, a in attr.fields_dict(K).items()]
+                if gotd != exp:
+                    return "slots=%s by_mro=%s: fields_dict(%s) metadata %r" % (slots, by_mro, K.__name__, gotd)
+                if any(type(a.metadata) is not types.MappingProxyType for a in attr.fields(K)):
+                    return "evolved metadata is not a mappingproxy"
+    a = attr.fields(attr.make_class("C", {"x": attr.ib(metadata={"k": 1})})).x
+    d = {"k": 2}
+    a2 = a.evolve(metadata=d)
+    d["k"] = 3
+    if dict(a2.metadata) != {"k": 2} or dict(a.metadata) != {"k": 1}:
+        return "evolve(metadata=d) keeps a live view of d: %r" % (dict(a2.metadata),)
+    import copy
+    import pickle
+    for clone in (copy.copy(a2), pickle.loads(pickle.dumps(a2))):
+        if dict(clone.metadata) != {"k": 2} or type(clone.metadata) is not types.MappingProxyType:
+            return "copy/pickle of an Attribute changed its metadata: %r" % (clone.metadata,)
+
+
 def rt_attribute_delattr():
     for label, C, D, *_ in _rt_matrix():
         a = attr.fields(D).r
@@ -1151,5 +1275,6 @@ RUNTIME = {
     "RT_C07_attribute_frozen": rt_attribute_frozen,
     "RT_C07_metadata_readonly_and_isolated": rt_metadata_readonly_and_isolated,
     "RT_C07_these_and_validators_isolated": rt_these_and_validators_isolated,
+    "RT_C07_evolve_metadata_isolated": rt_evolve_metadata_isolated,
     "RT_C07_attribute_delattr": rt_attribute_delattr,
 }
